@@ -166,7 +166,7 @@ func ValidateCounterpartyID(id string, protocol ProtocolID) error {
 	case PROTOCOL_IBC:
 		valid = channeltypes.IsValidChannelID(id)
 	case PROTOCOL_CCTP, PROTOCOL_HYPERLANE:
-		valid = isInteger(id)
+		valid = isCanonicalUint32(id)
 	case PROTOCOL_INTERNAL:
 		valid = true
 	case PROTOCOL_UNSUPPORTED:
@@ -182,12 +182,14 @@ func ValidateCounterpartyID(id string, protocol ProtocolID) error {
 	return nil
 }
 
-// isInteger returns true if the string can be converted to
-// an integer, false otherwise.
-func isInteger(s string) bool {
-	_, err := strconv.Atoi(s)
+// isCanonicalUint32 returns true if the string is the canonical decimal representation of a
+// 32-bit unsigned integer, which is the form used when domain identifiers are converted to
+// counterparty IDs. Signs, leading zeros and out of range values are rejected so that a
+// single domain cannot be identified by more than one string.
+func isCanonicalUint32(s string) bool {
+	v, err := strconv.ParseUint(s, 10, 32)
 
-	return err == nil
+	return err == nil && strconv.FormatUint(v, 10) == s
 }
 
 // ID generates an internal identifier for a tuple (bridge protocol, chain).
